@@ -504,6 +504,10 @@ var c19Templates = func() []c19Tpl {
 		{id: "tbl-data", sql: "SELECT * FROM DATA::($a)"},
 		{id: "tbl-file", sql: "SELECT * FROM FILE::($a)"},
 		{id: "tbl-inline", sql: "SELECT * FROM INLINE::($a)"},
+		// the same file as a cached table and as an inline table in one transaction (read-only cache entry, held entry)
+		{id: "inline-after-select", sql: "SELECT c1 FROM t WHERE c1 = $a; SELECT * FROM CSV_INLINE(',', `t.csv`); SELECT * FROM INLINE::('t.csv'); SELECT * FROM t"},
+		{id: "inline-after-update", sql: "UPDATE t SET c2 = $a; SELECT * FROM CSV_INLINE(',', `t.csv`); SELECT * FROM t", rollback: true},
+		{id: "select-after-inline", sql: "SELECT * FROM CSV_INLINE(',', `t.csv`) i JOIN t ON i.c1 = t.c1 WHERE t.c1 = $a"},
 		{id: "tbl-url", sql: "SELECT * FROM URL::($a)"},
 		{id: "tbl-fn-unknown", sql: "SELECT * FROM NOSUCH::($a)"},
 		{id: "tbl-fn-args", sql: "SELECT * FROM DATA::($a, $b)"},
